@@ -344,6 +344,7 @@ def make_space(ctx, kind):
     dim = 1 if kind.endswith('1d') else (3 if kind.endswith('3d') else 2)
     kk = s.weighted([('uniform', 5), ('nonuniform', 2), ('repeated', 2)])
     kvs, desc = [], []
+    sibling = {}
     for d in range(dim):
         p = s.intrange(1, 3 if dim < 3 else 2)
         n = s.intrange(2, 5 if dim == 1 else (4 if dim == 2 else 2))
@@ -351,10 +352,17 @@ def make_space(ctx, kind):
         if kk == 'nonuniform':
             br = br ** 1.7
         t = [0.0] * (p + 1) + list(br[1:-1]) + [1.0] * (p + 1)
+        rep = None
         if kk == 'repeated' and p >= 2 and n >= 2:
-            t.append(br[1])
+            rep = 1 + s.choice(n - 1)           # WHICH interior breakpoint is doubled
+            t.append(br[rep])
         kvs.append(bspline.KnotVector(np.array(sorted(t)), p))
-        desc.append([p, n])
+        desc.append([p, n] if rep is None else [p, n, rep])
+        if rep is not None and n >= 3:
+            # a sibling knot vector: same degree, same numbers of dofs and spans, the doubled knot elsewhere
+            rep2 = 1 + (rep % (n - 1))
+            t2 = [0.0] * (p + 1) + list(br[1:-1]) + [br[rep2]] + [1.0] * (p + 1)
+            sibling[d] = bspline.KnotVector(np.array(sorted(t2)), p)
     gk = s.weighted([('identity', 3), ('scaled', 2), ('curved', 2)])
     if dim == 1:
         geo = geometry.line_segment(0.0, 1.0) if gk != 'scaled' else geometry.line_segment(0.0, 2.5)
@@ -364,7 +372,8 @@ def make_space(ctx, kind):
     else:
         geo = {'identity': geometry.unit_cube, 'scaled': lambda: geometry.unit_cube().scale((2.0, 0.5, 1.5)),
                'curved': geometry.twisted_box}[gk]()
-    return dim, tuple(kvs), geo, {'degs_ncells': desc, 'knots': kk, 'geo': gk}
+    sib = tuple(sibling.get(d, kvs[d]) for d in range(dim)) if sibling else None
+    return dim, tuple(kvs), geo, {'degs_ncells': desc, 'knots': kk, 'geo': gk}, sib
 
 
 def fields(dim):
@@ -385,7 +394,7 @@ class Case:
     def __init__(self, ctx, kind):
         from pyiga import assemblers, compile as pc
         self.ctx, self.kind = ctx, kind
-        self.dim, self.kvs, self.geo, self.desc = make_space(ctx, kind)
+        self.dim, self.kvs, self.geo, self.desc, self.sibling_kvs = make_space(ctx, kind)
         s = ctx.ch.stream('cfg')
         shipped = {'mass2d': 'MassAssembler2D', 'stiff2d': 'StiffnessAssembler2D', 'mass3d': 'MassAssembler3D',
                    'stiff3d': 'StiffnessAssembler3D', 'divdiv2d': 'DivDivAssembler2D', 'l2f2d': 'L2FunctionalAssembler2D',
@@ -555,6 +564,21 @@ def _run(ctx, kind, fam, ctl):
     st = dict(case.state)
     nthreads = [1, 2, 3, 5, 7, 16, 0][o.choice(7)] or (1 + o.choice(17))
     pyiga.set_max_threads(nthreads)
+    if case.sibling_kvs is not None and case.kvs1 is None and case.boundary is None and o.choice(2):
+        # the SAME process first assembles on a sibling space (same degrees, numbers of dofs and spans; the doubled
+        # knot elsewhere): anything the library remembers between calls must not be keyed on less than the knots
+        ctx.log(['sibling-space-first'])
+        ctx.count('op.sibling-space-first')
+        main_kvs = case.kvs
+        try:
+            case.kvs = case.sibling_kvs
+            sasm = case.instantiate(st)
+            if case.arity == 2:
+                sA = ctx.call('assemble_entries(sibling)', assemble.assemble_entries, sasm)
+                if sA is RAISED():
+                    return
+        finally:
+            case.kvs = main_kvs
     asm = case.instantiate(st)
     m, n = case.shape()
     updated = False
